@@ -1,0 +1,30 @@
+//go:build verif
+
+// Contracts for package req (comment-only; read by /verif/govc).
+
+package req
+
+//@ struct pipe
+//@   immutable: p s
+//@   guarded_by s.Mutex: closed
+//@
+//@ struct context
+//@   guarded_by s.Mutex: resendTime sendExpire receiveExpire sendTimer receiveTimer resendTimer reqMsg repMsg sendMsg lastPipe reqID receiveWait bestEffort failNoPeers queued closed
+//@   immutable: s cond
+//@
+//@ struct socket
+//@   lock Mutex level 20
+//@   guarded_by Mutex: contexts ctxByID closed sendQ readyQ pipes
+//@   immutable: defCtx
+//@   atomic: nextID
+//@
+//@
+//@ func (*socket).send
+//@   holds s.Mutex
+//@
+//@ func (*context).cancelSend
+//@   holds c.s.Mutex
+//@
+//@ func (*context).cancel
+//@   holds c.s.Mutex
+//@
